@@ -6,7 +6,7 @@
 (* its route, and the layout is dumped (one JSON line) so that the harness *)
 (* can build real payloads from it (spec -> code direction).               *)
 (***************************************************************************)
-EXTENDS UbxWalk
+EXTENDS UbxBuild
 
 CONSTANTS Counts, Dump, Only
 
@@ -39,6 +39,23 @@ GenParseAgree ==
             /\ r.err = ""
             /\ r.off = Len(z)
             /\ AttrNames(r.attrs) = ExposedNames(lay.lay)
+
+\* C03 at design level: building from the attributes that parsing reports regenerates the payload
+\* (whenever the keyword route selects the same table entry and no variable-by-size group is populated)
+KwOfAttrs(attrs) ==
+    FoldLeft(LAMBDA acc, a : acc \o <<<<a.n, a.k, a.v>>>> \o (IF a.h # <<>> THEN <<<<"_HP" \o a.n, "f", a.h>>>> ELSE <<>>),
+             <<>>, attrs)
+HasPopulatedVarGroup(es) == c > 0 /\ \E i \in 1..Len(es) : es[i].k = "g" /\ es[i].ck = "var"
+BuildParseRoundTrip ==
+    (c >= 0 /\ GrammarSane(Table(m)[name])) =>
+        LET r0 == R
+            lay == LayoutGen(Table(m)[name], G)
+            z == ZeroFill(lay, r0.bfix, 4)
+        IN (r0.ok /\ SelectDefName(m, r0.cls, r0.id, z) = name /\ ~HasPopulatedVarGroup(Table(m)[name]) /\ Len(z) > 0) =>
+            LET r == Parse(m, r0.cls, r0.id, pbf, z)
+                kw == KwOfAttrs(r.attrs)
+                b == Build(m, r0.cls, r0.id, pbf, kw)
+            IN (b.def = name /\ b.err = "") => b.pl = z
 
 \* offsets never decrease
 LayoutMonotone ==
